@@ -756,8 +756,12 @@ impl Ctx {
                         // case is that case handled by the per-case net, and the chunk resumes behind it
                         let mut start = lo;
                         while start < hi {
+                            // the index the loop is at (NOT loc.cur_index: the trace-pass wrapper
+                                // overwrites that with the index of the underlying case)
+                            let at = std::cell::Cell::new(start);
                             let r = catch_unwind(AssertUnwindSafe(|| {
                                 for idx in start..hi {
+                                    at.set(idx);
                                     loc.cur_index = idx;
                                     let before = loc.viol_count;
                                     let recorded = loc.violations.len();
@@ -777,7 +781,7 @@ impl Ctx {
                                 Ok(Some(idx)) => idx,
                                 Err(_) => {
                                     IN_SUBJECT.with(|f| *f.borrow_mut() = false);
-                                    loc.cur_index
+                                    at.get()
                                 }
                             };
                             start = idx + 1;
